@@ -267,6 +267,8 @@ ConvFor(st, p, v) ==
 Eval(e, st) ==
   CASE e.k = "lit" -> R(Val(e.t, e.v), st)
     [] e.k = "flit" -> R(FracVal(e.t, e.w, e.f, e.neg), st)
+    \* a literal written with more digits than the exact domain holds (1E+38 and beyond): its value is not modelled
+    [] e.k = "big" -> R(Err(0), st)
     [] e.k = "var" -> R(GetKey(st, KeyS(e.n, e.t)), st)
     [] e.k = "idx" ->
          LET r == ResolveLv(e, st) IN
